@@ -35,8 +35,9 @@ def roots():
     R["R1"] = ({"channels": [{"name": "sr", "samples": [
         {"name": "sig", "data": [6.0, 9.0], "modifiers": [mu()]},
         {"name": "bkg1", "data": [40.0, 30.0], "modifiers": [{"name": "n1", "type": "normsys", "data": {"lo": 0.9, "hi": 1.12}}, {"name": "st_sr", "type": "staterror", "data": [3.0, 2.5]}]},
-        {"name": "bkg2", "data": [15.0, 12.0], "modifiers": [{"name": "n1", "type": "normsys", "data": {"lo": 0.9, "hi": 1.12}}, {"name": "st_sr", "type": "staterror", "data": [1.5, 1.0]}]}]}]},
-        {"sr": [58.0, 47.0]})
+        # bkg2 is empty in the first bin but carries an MC-statistical uncertainty there (legitimate; matters for the quadrature sum when merging)
+        {"name": "bkg2", "data": [0.0, 12.0], "modifiers": [{"name": "n1", "type": "normsys", "data": {"lo": 0.9, "hi": 1.12}}, {"name": "st_sr", "type": "staterror", "data": [1.5, 1.0]}]}]}]},
+        {"sr": [44.0, 47.0]})
     R["R2"] = ({"channels": [
         {"name": "zc", "samples": [
             {"name": "sig", "data": [7.0, 5.0], "modifiers": [mu()]},
